@@ -230,3 +230,73 @@ func (m *Machine) reflectType(t types.Type) value {
 	}
 	return iface{t: types.NewPointer(rt.Type()), v: rtype{t}}
 }
+
+func init() {
+	externals["errors.Is"] = func(m *Machine, fr *frame, a []value) value {
+		err, target := a[0].(iface), a[1].(iface)
+		for depth := 0; depth < 32 && err.t != nil; depth++ {
+			if sameType(err.t, target.t) {
+				if kr, ok := keyRepr(err.v); ok {
+					if kt, ok2 := keyRepr(target.v); ok2 && kr == kt {
+						return true
+					}
+				}
+			}
+			next := m.unwrapErr(fr, err)
+			if next == nil {
+				break
+			}
+			err = *next
+		}
+		return target.t == nil && err.t == nil
+	}
+	externals["errors.As"] = func(m *Machine, fr *frame, a []value) value {
+		err, target := a[0].(iface), a[1].(iface)
+		tp, ok := target.v.(*value)
+		if !ok || tp == nil {
+			panic(targetPanic{v: runtimeError("errors: target must be a non-nil pointer")})
+		}
+		tt := deref(target.t)
+		for depth := 0; depth < 32 && err.t != nil; depth++ {
+			if it, isIface := tt.Underlying().(*types.Interface); isIface {
+				if meth, _ := types.MissingMethod(err.t, it, true); meth == nil {
+					store(tp, err)
+					return true
+				}
+			} else if types.Identical(err.t, tt) {
+				store(tp, err.v)
+				return true
+			}
+			next := m.unwrapErr(fr, err)
+			if next == nil {
+				break
+			}
+			err = *next
+		}
+		return false
+	}
+}
+
+// unwrapErr calls err.Unwrap() error when the dynamic type has it.
+func (m *Machine) unwrapErr(fr *frame, err iface) *iface {
+	ms := m.P.Prog.MethodSets.MethodSet(err.t)
+	for i := 0; i < ms.Len(); i++ {
+		sel := ms.At(i)
+		if sel.Obj().Name() != "Unwrap" {
+			continue
+		}
+		sig := sel.Type().(*types.Signature)
+		if sig.Params().Len() != 0 || sig.Results().Len() != 1 {
+			return nil
+		}
+		if _, isSlice := sig.Results().At(0).Type().Underlying().(*types.Slice); isSlice {
+			return nil
+		}
+		r := m.call(fr, 0, m.P.Prog.MethodValue(sel), []value{err.v})
+		if ri, ok := r.(iface); ok && ri.t != nil {
+			return &ri
+		}
+		return nil
+	}
+	return nil
+}
